@@ -55,6 +55,19 @@ def impl_eval(case):
             why = f'format-0 block {blk.hex()} is not ISO 9564 ({spec_iso0(pin, pan).hex()})'
         elif back != pin:
             why = f'PIN read back from the block is {back!r} ({st2})'
+        else:
+            # the block handed over as the caller's own bytearray / memoryview, and read TWICE: reading a block does not
+            # change it, and the second reading gives the same PIN as the first
+            for mk_buf in (bytearray, lambda x: memoryview(bytearray(x))):
+                buf = mk_buf(blk)
+                r1 = guarded(lambda: pb.Iso0PinBlock.from_bytes(buf, card_number=pan).pin)
+                r2 = guarded(lambda: pb.Iso0PinBlock.from_bytes(buf, card_number=pan).pin)
+                if bytes(buf) != blk:
+                    why = "reading a PIN block changed the caller's buffer"
+                elif r1 != ('ok', pin) or r2 != ('ok', pin):
+                    why = f'a block given as {type(buf).__name__} reads as {r1} then {r2}'
+                if why:
+                    break
         return {'obs': f'ok {blk.hex()} {st2} {common.dotted(back or "")}', 'violation': why,
                 'tags': ['iso0', f'pinlen:{len(pin)}', f'panlen:{len(pan)}']}
     if k == 'iso4':
@@ -78,6 +91,14 @@ def impl_eval(case):
             why = f'format-4 block {blk.hex()} is not ISO 9564 ({spec_iso4(pin, rnd_used).hex()})'
         elif why is None and back != pin:
             why = f'PIN read back from the block is {back!r} ({st2})'
+        if why is None:
+            buf = bytearray(blk)
+            r1 = guarded(lambda: pb.Iso4PinBlock.from_bytes(buf).pin)
+            r2 = guarded(lambda: pb.Iso4PinBlock.from_bytes(buf).pin)
+            if bytes(buf) != blk:
+                why = "reading a PIN block changed the caller's buffer"
+            elif r1 != ('ok', pin) or r2 != ('ok', pin):
+                why = f'a block given as bytearray reads as {r1} then {r2}'
         return {'obs': f'ok {blk.hex()} {st2} {common.dotted(back or "")}', 'violation': why,
                 'tags': ['iso4', f'pinlen:{len(pin)}', 'rnd:none' if rnd is None else 'rnd:given']}
     if k == 'enc0':
